@@ -1091,6 +1091,31 @@ fn effect_section(m: &Model, g: &mut Gen, p: &mut Prog) {
 
 /// (kind, extra helper fns, extra main lines)
 fn neg_dyn(m: &Model, g: &mut Gen) -> Option<(String, Vec<String>, Vec<String>)> {
+    // a trait that cannot be used as `dyn`: a method returns Self (bare or nested in a type)
+    if g.d.chance(70) {
+        let cands: Vec<usize> = (0..m.vals.len()).filter(|&vi| !matches!(m.recvs[m.vals[vi].0].kind, RK::BoxOf(_))).collect();
+        if !cands.is_empty() {
+            let vi = cands[g.d.below(cands.len())];
+            let ty = m.ty_text(m.vals[vi].0, false);
+            let (ret, body, kind) = [
+                ("Self".to_string(), "self".to_string(), "self"),
+                ("(Self, Self)".to_string(), "(self, self)".to_string(), "tuple"),
+                ("(int32, Self)".to_string(), "(1, self)".to_string(), "tuple-mixed"),
+                ("Vec[Self]".to_string(), "vec_push(vec_new(), self)".to_string(), "vec"),
+                ("Ref[Self]".to_string(), "ref(self)".to_string(), "ref"),
+                ("[Self; 2]".to_string(), "[self, self]".to_string(), "array"),
+            ][g.d.below(6)]
+            .clone();
+            let concrete = ret.replace("Self", &ty);
+            let helpers = vec![
+                format!("trait Dz {{\n    fn dup(Self) -> {ret};\n    fn one(Self) -> int32;\n}}"),
+                format!("impl Dz for {ty} {{\n    fn dup(self: {ty}) -> {concrete} {{\n        {body}\n    }}\n    fn one(self: {ty}) -> int32 {{\n        1\n    }}\n}}"),
+                "fn neg_dz(v: dyn Dz) -> int32 { Dz::one(v) }".to_string(),
+            ];
+            let lines = vec![format!("    string_println(\"neg=\" + int32_to_string(neg_dz(x{vi})));")];
+            return Some((format!("dyn-unsafe-trait-{kind}"), helpers, lines));
+        }
+    }
     // a (trait, value) pair without impl, the trait having an impl for some other type
     let mut pairs = vec![];
     for tr in 0..m.traits.len() {
